@@ -439,29 +439,53 @@ func cmdCheck(args []string) int {
 		}
 	}
 	jwg.Wait()
-	// a timeout is not a verdict: an obligation that ran out of time (a loaded machine is enough for that in the quick
-	// tier) gets one second attempt, alone, with six times the budget and every back end, before it is reported
+	// a timeout is not a verdict: obligations that ran out of time (a loaded machine is enough for that in the quick
+	// tier) get one second attempt with six times the budget and every back end before they are reported - unless the
+	// run has a definite failure anyway (then the verdict cannot change), and for at most eight of them (a real break
+	// typically times out many dependent stepping stones; re-solving all of them would only make the report slow)
 	if os.Getenv("VERIF_NO_RETRY") == "" {
+		definite := false
+		var again []int
 		for i, j := range jobs {
-			if j.o.Result == nil || j.o.Result.Status != "timeout" || j.o.Kind == "requires-sat" || j.o.Kind == "reach" {
+			if j.o.Result == nil || j.o.Kind == "requires-sat" || j.o.Kind == "reach" {
 				continue
 			}
-			first := j.o.Result.Seconds
-			var res *SolveResult
-			for _, f := range files[i] {
-				r := Solve(f, to*6, true, false)
-				if res == nil || (res.Status == "unsat" && r.Status != "unsat") {
-					res = r
-				}
-				if r.Status != "unsat" {
-					break
-				}
+			switch j.o.Result.Status {
+			case "unsat":
+			case "timeout":
+				again = append(again, i)
+			default:
+				definite = true
 			}
-			if res != nil {
-				res.Seconds += first
-				res.Retried = true
-				j.o.Result = res
+		}
+		if !definite && len(again) > 0 && len(again) <= 8 {
+			var rwg sync.WaitGroup
+			for _, i := range again {
+				rwg.Add(1)
+				go func(i int) {
+					defer rwg.Done()
+					j := jobs[i]
+					first := j.o.Result.Seconds
+					var res *SolveResult
+					for _, f := range files[i] {
+						r := Solve(f, to*6, true, false)
+						if res == nil || (res.Status == "unsat" && r.Status != "unsat") {
+							res = r
+						}
+						if r.Status != "unsat" {
+							break
+						}
+					}
+					if res != nil {
+						res.Seconds += first
+						res.Retried = true
+						rmu.Lock()
+						j.o.Result = res
+						rmu.Unlock()
+					}
+				}(i)
 			}
+			rwg.Wait()
 		}
 	}
 
